@@ -23,11 +23,7 @@ Proof.
     destruct ((c =? 34) || (c =? 13) || (c =? 10)) eqn:E2.
     { destruct escaped; inversion H; subst. auto. }
     destruct (c =? 92) eqn:E3; inversion H; subst; auto.
-  - simpl. destruct ((c =? 32) || (c =? 9) || (c =? 13) || (c =? 10)) eqn:E1. { inversion H; subst. auto. }
-    destruct (c =? 34) eqn:E2.
-    { destruct escaped. { inversion H; subst. auto. }
-      destruct qc as [|[|[|q]]]; inversion H; subst; auto. }
-    destruct (c =? 92) eqn:E3; inversion H; subst; auto.
+  - simpl. destruct (block_step acc escaped qc wc reached lead c); inversion H; subst; auto.
 Qed.
 
 Lemma quiet_run_ok : forall s1 st st', quiet_run st s1 = Some st' -> forall s2, lex_go st (s1 ++ s2) = lex_go st' s2.
@@ -60,7 +56,8 @@ Proof.
   - destruct ((c =? 32) || (c =? 9)). { inversion H; subst; auto. }
     destruct ((c =? 34) || (c =? 13) || (c =? 10)). { destruct escaped; inversion H; subst; auto. }
     destruct (c =? 92); inversion H; subst; auto.
-  - destruct ((c =? 32) || (c =? 9) || (c =? 13) || (c =? 10)). { inversion H; subst; auto. }
+  - unfold block_step in H.
+    destruct ((c =? 32) || (c =? 9) || (c =? 13) || (c =? 10)). { inversion H; subst; auto. }
     destruct (c =? 34).
     { destruct escaped. { inversion H; subst; auto. }
       destruct qc as [|[|[|q]]]; inversion H; subst; auto. }
@@ -288,20 +285,88 @@ Qed.
 Lemma firstn_all_sub : forall {A} (l : list A), firstn (length l - 0) l = l.
 Proof. intros. rewrite Nat.sub_0_r. apply firstn_all. Qed.
 
+(* the last byte decides what a run inside a block string leaves pending *)
+Lemma quiet_run_snoc : forall s st c, quiet_run st (s ++ [c]) =
+  match quiet_run st s with Some st' => quiet_step st' c | None => None end.
+Proof.
+  induction s; simpl; intros st c.
+  - destruct (quiet_step st c); auto.
+  - destruct (quiet_step st a); auto.
+Qed.
+Lemma quiet_run_block : forall s acc e q w r l st, quiet_run (LBlock acc e q w r l) s = Some st ->
+  exists acc' e' q' w' r' l', st = LBlock acc' e' q' w' r' l'.
+Proof.
+  induction s; simpl; intros acc e q w r l st H.
+  - inversion H; subst. repeat eexists.
+  - destruct (block_step acc e q w r l a) eqn:B; try discriminate. eapply IHs; eauto.
+Qed.
+Lemma block_pending : forall raw acc e q w r l, raw <> [] ->
+  quiet_run (LBlock [] false 0 0 false 0) raw = Some (LBlock acc e q w r l) ->
+  (e = true -> last raw 0 = 92) /\ (q <> O -> last raw 0 = 34).
+Proof.
+  intros raw acc e q w r l NE H.
+  destruct (exists_last NE) as [s [c E]]. subst raw. rewrite last_last.
+  rewrite quiet_run_snoc in H.
+  destruct (quiet_run (LBlock [] false 0 0 false 0) s) as [st|] eqn:Q; try discriminate.
+  destruct (quiet_run_block _ _ _ _ _ _ _ _ Q) as [a0 [e0 [q0 [w0 [r0 [l0 St]]]]]]. subst st.
+  simpl in H. unfold block_step in H.
+  destruct ((c =? 32) || (c =? 9) || (c =? 13) || (c =? 10)) eqn:W.
+  { inversion H; subst. split; [discriminate|congruence]. }
+  destruct (c =? 34) eqn:E34.
+  { apply N.eqb_eq in E34. subst c. split; auto.
+    destruct e0. { inversion H; subst. discriminate. }
+    destruct q0 as [|[|[|q0]]]; inversion H; subst; discriminate. }
+  destruct (c =? 92) eqn:E92.
+  { apply N.eqb_eq in E92. subst c. inversion H; subst. split; auto. congruence. }
+  inversion H; subst. split; [discriminate|congruence].
+Qed.
+
+Lemma firstn_snoc_drop : forall (raw : bytes) c, firstn (length (raw ++ [c]) - 1) (raw ++ [c]) = raw.
+Proof.
+  intros. rewrite app_length. simpl. replace (length raw + 1 - 1)%nat with (length raw) by lia.
+  rewrite firstn_app, firstn_all, Nat.sub_diag. simpl. apply app_nil_r.
+Qed.
+
+Lemma close_block : forall acc wc reached lead rest,
+  lex_go (LBlock acc false 0 wc reached lead) (34 :: 34 :: 34 :: rest)
+  = TStr (block_content acc lead wc) true :: lex_go LStart rest.
+Proof. intros. reflexivity. Qed.
+
 Lemma lex_block : forall raw rest, block_ok raw = true ->
-  lex_go LStart (34 :: 34 :: 34 :: raw ++ 34 :: 34 :: 34 :: rest) = TStr raw true :: lex_go LStart rest.
+  lex_go LStart (34 :: 34 :: 34 :: raw ++ block_sep raw ++ 34 :: 34 :: 34 :: rest) = TStr raw true :: lex_go LStart rest.
 Proof.
   intros raw rest H. unfold block_ok in H.
   destruct (quiet_run (LBlock [] false 0 0 false 0) raw) as [st|] eqn:Q; try discriminate.
-  destruct st; try discriminate. destruct escaped; try discriminate.
-  destruct qc; try discriminate. destruct wc; try discriminate. destruct lead; try discriminate.
+  destruct st; try discriminate.
+  apply andb_true_iff in H. destruct H as [HL HW]. apply Nat.eqb_eq in HL. apply Nat.eqb_eq in HW.
   assert (A : acc = rev raw).
   { pose proof (quiet_run_acc _ _ _ [] Q eq_refl) as A. simpl in A. rewrite app_nil_r in A. congruence. }
   subst acc.
-  change (lex_go LStart (34 :: 34 :: 34 :: raw ++ 34 :: 34 :: 34 :: rest))
-    with (lex_go (LBlock [] false 0 0 false 0) (raw ++ 34 :: 34 :: 34 :: rest)).
-  rewrite (quiet_run_ok _ _ _ Q). simpl. unfold block_content. simpl skipn.
-  rewrite rev_involutive, firstn_all_sub. auto.
+  change (lex_go LStart (34 :: 34 :: 34 :: raw ++ block_sep raw ++ 34 :: 34 :: 34 :: rest))
+    with (lex_go (LBlock [] false 0 0 false 0) (raw ++ block_sep raw ++ 34 :: 34 :: 34 :: rest)).
+  rewrite (quiet_run_ok _ _ _ Q).
+  unfold block_sep. destruct ((last raw 0 =? 34) || (last raw 0 =? 92)) eqn:S.
+  - (* separated by a line terminator: whatever was pending is settled by it *)
+    cbn [app]. 
+    assert (St : lex_go (LBlock (rev raw) escaped qc wc reached lead) (10 :: 34 :: 34 :: 34 :: rest)
+                 = lex_go (LBlock (10 :: rev raw) false 0 1 (match qc with O => reached | _ => true end) 0) (34 :: 34 :: 34 :: rest)).
+    { cbn [lex_go]. unfold block_step. cbn [N.eqb orb Pos.eqb].
+      unfold block_fire. destruct qc; cbn [negb N.eqb Pos.eqb] in *; cbn [settled_wc settled_lead andb orb] in *.
+      - rewrite HL, HW. reflexivity.
+      - rewrite HL. reflexivity. }
+    eapply eq_trans; [exact St|]. eapply eq_trans; [apply close_block|].
+    unfold block_content. cbn [skipn rev]. rewrite rev_involutive, firstn_snoc_drop. reflexivity.
+  - (* nothing pending: the last byte is neither a quote nor a backslash *)
+    apply orb_false_iff in S. destruct S as [S1 S2]. apply N.eqb_neq in S1. apply N.eqb_neq in S2.
+    assert (P : escaped = false /\ qc = O).
+    { destruct raw as [|c0 r0]. { simpl in Q. inversion Q; subst. auto. }
+      assert (NE : c0 :: r0 <> []) by discriminate.
+      destruct (block_pending _ _ _ _ _ _ _ NE Q) as [P1 P2].
+      split. { destruct escaped; auto. exfalso. apply S2. auto. }
+      destruct qc; auto. exfalso. apply S1. apply P2. discriminate. }
+    destruct P; subst escaped qc. cbn [settled_wc settled_lead andb] in *. subst lead wc.
+    cbn [app]. eapply eq_trans; [apply close_block|]. unfold block_content. simpl skipn.
+    rewrite rev_involutive, firstn_all_sub. reflexivity.
 Qed.
 
 (* ------------------------------------------------------------------ token sequence of a value *)
@@ -412,7 +477,7 @@ Proof.
   - apply lex_int; auto.
   - apply lex_float; auto.
   - destruct bl; cbn [print_value toks].
-    + rewrite <- !app_comm_cons, <- app_assoc. cbn [app]. apply lex_block. auto.
+    + rewrite <- !app_comm_cons, <- !app_assoc. cbn [app]. apply lex_block. auto.
     + rewrite <- !app_comm_cons, <- app_assoc. cbn [app]. apply lex_str; auto.
   - destruct x; [apply (lex_name #"true" rest LStart) | apply (lex_name #"false" rest LStart)]; auto; apply follow_key; auto.
   - apply (lex_name #"null" rest LStart); auto. apply follow_key; auto.
